@@ -138,10 +138,18 @@ func cmdCheck(args []string) int {
 	loadJSON(expPath, &exp)
 	have := map[string]bool{}
 	var stable []string
+	seenStable := map[string]bool{}
 	for _, o := range out.obls {
+		// per-return-site obligations are tracked by their clause, not by the site ordinal
+		base := o.Name
+		if i := strings.LastIndex(base, "@ret"); i > 0 {
+			base = base[:i]
+		}
+		have[base] = true
 		have[o.Name] = true
-		if stableName(o) {
-			stable = append(stable, o.Name)
+		if stableName(o) && !seenStable[base] {
+			seenStable[base] = true
+			stable = append(stable, base)
 		}
 	}
 	sort.Strings(stable)
